@@ -70,8 +70,13 @@ KnownFinding_F3(t, recs, onebased) ==
 -----------------------------------------------------------------------------
 (* pre-binned pixel records <<bin1, bin2, v>> (COO): create/_ingest.py:_sanitize_pixels + validate_pixels *)
 ShiftPx(p, onebased) == IF onebased THEN [p EXCEPT ![1] = @ - 1, ![2] = @ - 1] ELSE p
-PxRejected(n, px, onebased) ==
-  \E k \in DOMAIN px : LET p == ShiftPx(px[k], onebased) IN p[1] < 0 \/ p[2] < 0 \/ p[1] >= n \/ p[2] >= n
+\* Bin IDs are validated on what is LEFT after the triangle option has been applied: with "drop" a lower-triangle record
+\* is discarded unseen (it is the redundant copy of a record that is validated), whatever its IDs are.  (The property speaks
+\* of positions; for pre-binned IDs this is the reading the code takes, and no record is ever counted in a wrong pixel.)
+PxRejected(n, px, onebased, tril) ==
+  \E k \in DOMAIN px : LET p == ShiftPx(px[k], onebased) IN
+     /\ ~(tril = "drop" /\ p[1] > p[2])
+     /\ (p[1] < 0 \/ p[2] < 0 \/ p[1] >= n \/ p[2] >= n)
 PxOriented(px, onebased, tril) ==
   LET s == [k \in DOMAIN px |-> ShiftPx(px[k], onebased)] IN
   IF tril = "reflect" THEN [k \in DOMAIN s |-> IF s[k][1] > s[k][2] THEN <<s[k][2], s[k][1], s[k][3]>> ELSE s[k]]
